@@ -1,5 +1,7 @@
 import Chrono.Drv.Util
 import Chrono.Model.Weekday
+import Chrono.Model.WeekdayConv
+import Chrono.Model.WeekdaySetX
 namespace Chrono.Drv.Weekday
 open Chrono Chrono.M Chrono.Drv
 
@@ -10,6 +12,11 @@ def showMo (m : Month) : String := toString m.toNat
 def showOW := showOpt showWd
 def showOM := showOpt showMo
 
+def optNat? (s : String) : Option (Option Nat) := if s = "none" then some none else (nat? s).map some
+def align? (s : String) : Option M.WdFmt.Align :=
+  if s = "l" || s = "d" then some .left else if s = "r" then some .right
+  else if s = "c" then some .center else none
+
 def handle (op : String) (args : List String) : Option String :=
   match op, args with
   | "wd.succ", [a] => some ((wd? a).elim bad (fun w => showWd w.succ))
@@ -18,21 +25,21 @@ def handle (op : String) (args : List String) : Option String :=
       s!"{w.num_days_from_monday} {w.number_from_monday} {w.num_days_from_sunday} {w.number_from_sunday}"))
   | "wd.since", [a, b] => some (match wd? a, wd? b with
       | some x, some y => toString (x.days_since y) | _, _ => bad)
-  | "wd.from_u8", [n] => some ((int? n).elim bad (fun n => showOW (M.Weekday.try_from_u8 n)))
-  | "wd.from_i64", [n] => some ((int? n).elim bad (fun n => showOW (M.Weekday.from_i64 n)))
-  | "wd.from_u64", [n] => some ((int? n).elim bad (fun n => showOW (M.Weekday.from_u64 n)))
-  | "wd.from_u32", [n] => some ((int? n).elim bad (fun n => showOW (M.Weekday.from_u32 n)))
-  | "wd.from_i32", [n] => some ((int? n).elim bad (fun n => showOW (M.Weekday.from_i32 n)))
+  | "wd.from_u8", [n] => some ((int? n).elim bad (fun n => showOW (M.Conv.Weekday.try_from_u8 n)))
+  | "wd.from_i64", [n] => some ((int? n).elim bad (fun n => showOW (M.Conv.Weekday.from_i64 n)))
+  | "wd.from_u64", [n] => some ((int? n).elim bad (fun n => showOW (M.Conv.Weekday.from_u64 n)))
+  | "wd.from_u32", [n] => some ((int? n).elim bad (fun n => showOW (M.Conv.Weekday.from_u32 n)))
+  | "wd.from_i32", [n] => some ((int? n).elim bad (fun n => showOW (M.Conv.Weekday.from_i32 n)))
   | "wd.parse", [s] => some ((hexDecode s).elim bad (fun b => showOW (M.Weekday.parse b)))
   | "wd.display", [a] => some ((wd? a).elim bad (fun w => hexEncode w.display))
   | "mo.succ", [a] => some ((mo? a).elim bad (fun m => showMo m.succ))
   | "mo.pred", [a] => some ((mo? a).elim bad (fun m => showMo m.pred))
   | "mo.num", [a] => some ((mo? a).elim bad (fun m => toString m.number_from_month))
-  | "mo.from_u8", [n] => some ((int? n).elim bad (fun n => showOM (Month.try_from_u8 n)))
-  | "mo.from_u32", [n] => some ((int? n).elim bad (fun n => showOM (Month.from_u32 n)))
-  | "mo.from_u64", [n] => some ((int? n).elim bad (fun n => showOM (Month.from_u64 n)))
-  | "mo.from_i64", [n] => some ((int? n).elim bad (fun n => showOM (Month.from_i64 n)))
-  | "mo.from_i32", [n] => some ((int? n).elim bad (fun n => showOM (Month.from_i32 n)))
+  | "mo.from_u8", [n] => some ((int? n).elim bad (fun n => showOM (M.Conv.Month.try_from_u8 n)))
+  | "mo.from_u32", [n] => some ((int? n).elim bad (fun n => showOM (M.Conv.Month.from_u32 n)))
+  | "mo.from_u64", [n] => some ((int? n).elim bad (fun n => showOM (M.Conv.Month.from_u64 n)))
+  | "mo.from_i64", [n] => some ((int? n).elim bad (fun n => showOM (M.Conv.Month.from_i64 n)))
+  | "mo.from_i32", [n] => some ((int? n).elim bad (fun n => showOM (M.Conv.Month.from_i32 n)))
   | "mo.parse", [s] => some ((hexDecode s).elim bad (fun b => showOM (Month.parse b)))
   | "mo.name", [a] => some ((mo? a).elim bad (fun m => hexEncode m.name))
   | "ws.bin", [a, b] => some (match nat? a, nat? b with
@@ -53,6 +60,34 @@ def handle (op : String) (args : List String) : Option String :=
         match WeekdaySet.runSchedule sched ⟨s, st⟩ with
         | .ok (fs, ks, it) =>
           s!"f={joinSp (fs.map showWd)} b={joinSp (ks.map showWd)} left={it.days}"
+        | .panic => "panic"
+      | _, _, _, _ => bad)
+  | "wd.fmt", [a, w, p, al, fill] => some (match wd? a, optNat? w, optNat? p, align? al, nat? fill with
+      | some d, some w, some p, some al, some fill => hexEncode (d.display_fmt w p al fill)
+      | _, _, _, _, _ => bad)
+  | "wd.from_prim", [ty, n] => some (match M.Conv.PrimTy.ofString ty, int? n with
+      | some ty, some n => showOW (M.Conv.Weekday.fromPrim ty n) | _, _ => bad)
+  | "mo.from_prim", [ty, n] => some (match M.Conv.PrimTy.ofString ty, int? n with
+      | some ty, some n => showOM (M.Conv.Month.fromPrim ty n) | _, _ => bad)
+  | "ws.collect", ds => some (match ds.mapM wd? with
+      | some ds => toString (WeekdaySet.from_iter ds)
+      | none => bad)
+  | "ws.from_array", ds => some (match ds.mapM wd? with
+      | some ds => toString (WeekdaySet.from_array ds)
+      | none => bad)
+  | "ws.const", [] => some s!"{WeekdaySet.EMPTY} {WeekdaySet.ALL}"
+  | "ws.fmt", [a] => some ((nat? a).elim bad (fun s =>
+      s!"{showRes hexEncode (WeekdaySet.display s)} {hexEncode (WeekdaySet.debug s)}"))
+  | "ws.iterx", [a, st, k, n] => some (match nat? a, wd? st, nat? k, nat? n with
+      | some s, some st, some k, some n =>
+        let sched := (List.range n).map (fun i => k.testBit i)
+        let it0 := WeekdaySet.iter s st
+        match WeekdaySet.runSchedule sched it0 with
+        | .ok (_, _, it) =>
+          match WeekdaySet.runSchedule (List.replicate 8 true) it with
+          | .ok (_, _, itd) =>
+            s!"len0={it0.len} len={it.len} drained={itd.len} fused={showBool (WeekdaySet.staysNone 3 itd)}"
+          | .panic => "panic"
         | .panic => "panic"
       | _, _, _, _ => bad)
   | _, _ => none
